@@ -1,0 +1,12 @@
+//go:build verif
+
+package getty
+
+// PendingFuturesForVerif returns the sizes of the two request bookkeeping maps
+// (message futures, merged messages) of the process-wide remoting client.
+func PendingFuturesForVerif() (futures, merged int) {
+	r := GetGettyRemotingClient().gettyRemoting
+	r.futures.Range(func(_, _ interface{}) bool { futures++; return true })
+	r.mergeMsgMap.Range(func(_, _ interface{}) bool { merged++; return true })
+	return
+}
